@@ -57,3 +57,18 @@ Print Assumptions C15_judge_test_sound.
    trivially accepting *)
 Example C15_nonvacuous : judge_ctu_compl ex_record = 0 /\ complement_model 2 2 [[1;1];[1;1]] (Some 0%nat) (Some 0%nat) = [[1;0];[0;0]].
 Proof. split; vm_compute; reflexivity. Qed.
+
+(* ---------- cmr-ctu IN OUT -r R -c C (CliModel.judge_clictu) ---------- *)
+From Cmr Require TextModel CliModel CliProofs.
+Theorem C15_tool_complement_judge_sound : forall rec mode r c infmt outfmt inb rc hasout outb rest m n M,
+  CliProofs.clictu_input rec = Some ((mode, r, c, infmt, outfmt, inb, rc, hasout, outb), rest) ->
+  CliModel.judge_clictu rec = 0 ->
+  mode = 2 ->
+  TextModel.parse infmt 0 inb = TextModel.TOk m n M ->
+  is_binary M = true ->
+  opt_lt (CliModel.opt_of r) m && opt_lt (CliModel.opt_of c) n = true ->
+  (r <? 0) && (c <? 0) = false ->
+  rc = 0 /\ hasout = true /\
+  TextModel.parse outfmt 0 outb = TextModel.TOk m n (complement_spec m n M (CliModel.opt_of r) (CliModel.opt_of c)).
+Proof. exact CliProofs.judge_clictu_sound. Qed.
+Print Assumptions C15_tool_complement_judge_sound.
